@@ -191,4 +191,9 @@ pub trait Exec {
     fn flush_before(&self, _words: &[&str]) -> bool {
         false
     }
+    /// Concrete access for wrapping executors (track `scale`): an executor that lets a wrapper
+    /// look at its real objects returns `Some(self)`.
+    fn as_any_mut(&mut self) -> Option<&mut dyn std::any::Any> {
+        None
+    }
 }
